@@ -585,6 +585,20 @@ pub fn special_cases() -> Vec<(String, Vec<u8>)> {
         fb.finish_table(&[("Root", Val::r(1))], Split::Runs);
         v.push((format!("content-{}-x{}", name, times), fb.bytes()));
     }
+    // a stream whose /Length leads through an object that is nothing but a reference: to an integer (fine), back to the
+    // stream itself, to a second stream whose length takes the same way
+    for (name, target) in [("to-an-integer", 6u64), ("back-to-the-stream", 4), ("to-a-second-stream-with-the-same-length-object", 7)] {
+        let mut fb = FileBuilder::new(b"");
+        fb.add(1, 0, &cat);
+        fb.add(2, 0, &Val::dict(vec![("Type", Val::name("Pages")), ("Kids", Val::Array(vec![Val::r(3)])), ("Count", Val::Int(1)), ("MediaBox", Val::ints(&[0, 0, 9, 9]))]));
+        fb.add(3, 0, &Val::dict(vec![("Type", Val::name("Page")), ("Parent", Val::r(2)), ("Resources", Val::dict(vec![])), ("Contents", Val::r(4))]));
+        fb.add(4, 0, &Val::stream(vec![("Length", Val::r(5))], b"q Q".to_vec()));
+        fb.add(5, 0, &Val::r(target));
+        fb.add(6, 0, &Val::Int(3));
+        fb.add(7, 0, &Val::stream(vec![("Length", Val::r(5))], b"abc".to_vec()));
+        fb.finish_table(&[("Root", Val::r(1))], Split::Runs);
+        v.push((format!("stream-length-through-reference-only-object-{}", name), fb.bytes()));
+    }
     // PostScript calculator operands
     for (name, prog) in [("ps-roll-negative", "{ 1 2 3 3 -1 roll }"), ("ps-roll-huge", "{ 1 2 3 3 2147483647 roll }"), ("ps-roll-n-huge", "{ 1 2 2147483647 1 roll }"), ("ps-index-huge", "{ 1 2147483647 index }"), ("ps-index-negative", "{ 1 -1 index }"), ("ps-pop-empty", "{ pop pop pop }"), ("ps-deep", "{ dup dup dup dup dup dup dup dup dup dup dup dup dup dup dup dup dup dup dup dup }"), ("ps-unbalanced", "{ { 1 }"), ("ps-empty", "")] {
         let mut objs = hostile_objects();
